@@ -437,6 +437,21 @@ pub fn gen_e2e(rng: &mut Rng, thorough: bool) -> Vec<String> {
                 let a2 = nat_list(&(0..recs.len()).map(|i| i % 2).collect::<Vec<_>>());
                 out.push(format!("c01.e2e mal 2 0 small {a2} {}", rec_str(&recs)));
             }
+            // every declared layer of the breakdown-reveal tree aggregation: more than 8^3 = 512 attributed rows in ONE bucket
+            // on one shard need a fourth layer (AggregationStep::Aggregate(3)) under the test-build proof-chunk size
+            // (seed C01g: the declared layer count dropped to 3 -> panic, no histogram); 513 = 512 + a last chunk of one row
+            {
+                let mut recs = vec![];
+                for k in 0..513u64 {
+                    recs.push(('i', 5000 + k, 3));
+                    recs.push(('c', 5000 + k, (k % 2) as u32));
+                }
+                let a = nat_list(&vec![0usize; recs.len()]);
+                out.push(format!("c01.e2e sh 1 0 small {a} {}", rec_str(&recs)));
+                if thorough {
+                    out.push(format!("c01.e2e mal 1 0 small {a} {}", rec_str(&recs)));
+                }
+            }
             // --- F8 (fixed) witnesses: a shard that enters with no rows (2 shards, everything on shard 0)
             out.push("c01.e2e sh 2 0 prod 0,0,0,0 i:1:2,c:1:3,i:2:2,c:2:4".to_string());
             out.push("c01.e2e mal 2 0 prod 0,0,0,0 i:1:2,c:1:3,i:2:2,c:2:4".to_string());
